@@ -13,7 +13,7 @@ from ..core import Part, Violation, guard
 RULE = ("Hypothesis-generated synthetic rulesets (incl. Markov levels) x flag sets. (1) In-process: the real pcfg_guesser.main() "
         "is run unlimited (U) and with -n N for EVERY N in 1..total+2 (exhaustive per ruleset when total <= 80, otherwise all "
         "group boundaries +-1 plus generated N): stdout must equal U[:N]; U itself must be, segment by segment in queue order, "
-        "the model-side expansion of each popped pre-terminal (Markov segments: the reference OMEN enumeration). (2) CLI: "
+        "the model-side expansion of each popped pre-terminal (Markov segments: the reference OMEN enumeration). (1b) a session is interrupted and resumed twice from the same saved state, unlimited and with -n N: the limited resume must be the first N lines of the unlimited one (N inside the restored Markov remainder included). (2) CLI: "
         "pcfg_guesser.py as a subprocess in a scratch copy of the working tree, stdin /dev/null or an open silent pipe: raw "
         "stdout bytes must be exactly the expected lines. Non-trivial = N strictly inside a pre-terminal of >=2 guesses or "
         "inside a Markov level; distinct = hash of (model, flags, N).")
